@@ -224,6 +224,21 @@ Proof.
       * replace (k + S n) with (S k + n) by lia. exact HIf.
 Qed.
 
+(* a built-in applied to evaluated arguments; assignment to a whole variable *)
+Lemma ev_call_builtin d g args en vs en' c :
+  evals_list d args en (inr vs, en') -> is_builtin g = true -> builtin g vs = Some c -> evals d (ECall g args) en (c, en').
+Proof.
+  intros [f1 H1] Hb Hc. fuel f1. simpl. rewrite H1 by lia. unfold call. rewrite Hb, Hc. reflexivity.
+Qed.
+
+Lemma ev_assign_var d x rhs en v en1 old en2 :
+  evals d rhs en (CVal v, en1) -> lookup x en1 = Some old -> update x v en1 = Some en2 ->
+  evals d (EAssign x [] rhs) en (CVal VUnit, en2).
+Proof.
+  intros [f1 H1] Hl Hu. fuel (S f1). simpl. rewrite H1 by lia. simpl.
+  destruct f as [|f']; [lia|]. simpl. rewrite Hl. simpl. rewrite Hu. reflexivity.
+Qed.
+
 (* ---- calls of user functions ---- *)
 Lemma calls_intro d g args fd en0 c en' c' :
   is_builtin g = false -> find_fn P g = Some fd -> bind_params fd args = Some en0 ->
